@@ -204,13 +204,27 @@ func (x *Exec) assumeInvs(s *State, invs []*Clause) {
 	}
 }
 
-func (x *Exec) nextLoopOrd() int {
+// loopOrdOf returns the source-order ordinal of a loop statement of the function under contract.
+func (x *Exec) loopOrdOf(n ast.Node) int {
 	if !x.cur.top {
 		return -1
 	}
-	o := x.cur.loopOrd
-	x.cur.loopOrd++
-	return o
+	if o, ok := x.loopOrds[n]; ok {
+		return o
+	}
+	return -1
+}
+
+func numberLoops(body ast.Node) map[ast.Node]int {
+	m := map[ast.Node]int{}
+	ast.Inspect(body, func(n ast.Node) bool {
+		switch n.(type) {
+		case *ast.ForStmt, *ast.RangeStmt:
+			m[n] = len(m)
+		}
+		return true
+	})
+	return m
 }
 
 func (x *Exec) execFor(s *State, st *ast.ForStmt, label string) *State {
@@ -223,7 +237,7 @@ func (x *Exec) execFor(s *State, st *ast.ForStmt, label string) *State {
 			return nil
 		}
 	}
-	ord := x.nextLoopOrd()
+	ord := x.loopOrdOf(st)
 	invs := x.loopInvariants(ord)
 	x.checkInvs(s, invs, ord, "init", st.Pos())
 	h := s
@@ -291,7 +305,6 @@ func (x *Exec) execRange(s *State, st *ast.RangeStmt, label string) *State {
 	case KSlice:
 		if coll.Conc != nil && len(coll.Conc) <= 8 {
 			// literal-sized slice: unroll
-			x.nextLoopOrd()
 			lcOuter := &loopCtx{label: label}
 			var brk []*State
 			cur := s
@@ -312,7 +325,7 @@ func (x *Exec) execRange(s *State, st *ast.RangeStmt, label string) *State {
 			_ = lcOuter
 			return x.mergeMany(append([]*State{cur}, brk...))
 		}
-		ord := x.nextLoopOrd()
+		ord := x.loopOrdOf(st)
 		invs := x.loopInvariants(ord)
 		// hidden index variable; exposed under the key name if present
 		idxCell := s.Alloc(prim(Zero, intT))
@@ -362,7 +375,7 @@ func (x *Exec) execRange(s *State, st *ast.RangeStmt, label string) *State {
 		}
 		return x.mergeMany(append([]*State{exitS}, lc.breaks...))
 	case KMap:
-		ord := x.nextLoopOrd()
+		ord := x.loopOrdOf(st)
 		invs := x.loopInvariants(ord)
 		x.checkInvs(s, invs, ord, "init", st.Pos())
 		h := s
